@@ -406,6 +406,7 @@ func (st *Runtime) executeList(list *ListNode) (returnValue reflect.Value) {
 
 	for i := 0; i < len(list.Nodes); i++ {
 		node := list.Nodes[i]
+		previousReturnValue := returnValue
 		switch node.Type() {
 
 		case NodeText:
@@ -562,6 +563,10 @@ func (st *Runtime) executeList(list *ListNode) (returnValue reflect.Value) {
 		case NodeReturn:
 			node := node.(*ReturnNode)
 			returnValue = st.evalPrimaryExpressionGroup(node.Value)
+		}
+		if !returnValue.IsValid() {
+			// a statement that executed no return must not discard the value of an earlier one
+			returnValue = previousReturnValue
 		}
 	}
 
